@@ -332,6 +332,18 @@ def make_tagged_block(tag):
 TAGGED_BLOCKS = [make_tagged_block(t) for t in (_tags.TagA, _tags.TagB, _tags.TagA2)]
 
 
+def mutating_node(uid=None, a=None, b=None, c=None, *va, **vk):
+  """A callable that edits the containers it is handed in place (sorts, appends, pops): what
+  it receives must be its own, never the configuration's objects."""
+  r = _r.rec('mutating_node', locals())
+  for v in [a, b, c, *va, *vk.values()]:
+    if type(v) is list:
+      v.append('appended by the callable')
+    elif type(v) is dict:
+      v['added by the callable'] = 1
+  return r
+
+
 def two(x=None, y=None):
   return _r.rec('two', locals())
 
